@@ -4,7 +4,7 @@ import Tpp.Model.Screen
 Driver slice `Screen` (C03, C04).
   `S <bits> ; op ; op …` with ops
      `cv w h`            a new canvas of that size becomes the current canvas
-     `px x y <element>`  canvas[x][y] = element
+     `px x y <element>`  canvas[x][y] = element   (`pi`: via *(begin()+y*w+x), `pr`: via a range-for over the canvas)
      `rz w h`            canvas.resize
      `tsz w h`           terminal.set_size (the terminal itself is resized to w x h as well)
      `dr`                screen.draw(canvas)
@@ -22,6 +22,9 @@ def rdSOp : Rd (Option SOp) := do
   match w with
   | "cv" => do let a ← Rd.int; let b ← Rd.int; return some (.cv a b)
   | "px" => do let x ← Rd.int; let y ← Rd.int; let e ← rdElement; return some (.px x y e)
+  -- the same assignment made through `begin() + y*w + x` (`pi`) or inside a range-for (`pr`): C16 says it is the same cell
+  | "pi" => do let x ← Rd.int; let y ← Rd.int; let e ← rdElement; return some (.px x y e)
+  | "pr" => do let x ← Rd.int; let y ← Rd.int; let e ← rdElement; return some (.px x y e)
   | "rz" => do let a ← Rd.int; let b ← Rd.int; return some (.rz a b)
   | "tsz" => do let a ← Rd.int; let b ← Rd.int; return some (.tsz a b)
   | "dr" => return some .dr
